@@ -83,6 +83,9 @@ def run(repo, res, tier):
     stop = {f for f in g.nodes if f.endswith(".__init__")} | set(LAZY_INIT)
     # ---- the temp-style region: calls lexically inside `with style_temp_edit(...)` bodies
     temp_callees, n_with = set(), 0
+    # who-may-write over pre-existing objects: a setter reached only through an assignment on an object created in the calling function
+    # (copy(): `obj_copy.parent = ..`) runs on that new object
+    g.edges = g.edges_for_preexisting()
     outside_edges = {fid: set(v) for fid, v in g.edges.items()}
     for fid, n in g.nodes.items():
         for w in ast.walk(n.node):
